@@ -527,7 +527,14 @@ TEdit ==
           /\ immDone' = (immOn /\ (immDone \/ flushed))
           /\ pending' = pending \ {Ev.add[i].f : i \in 1..Len(Ev.add)}
      ELSE UNCHANGED <<cur, files, logWal, manNo, immDone, pending>>
-  /\ Judge /\ Step(Ev.ok, "Edit")
+  \* RainCore.FlushInstall: a memtable flushed from inside the merge loop of a table compaction
+  \* stays in level 0 (the compaction's outputs will cover the gaps between its inputs)
+  /\ JudgeAnd(IF Ev.ok /\ flushed /\ comp.on /\ ~FaultMode
+                 /\ \E i \in 1..Len(Ev.add) : Ev.add[i].level > 0
+              THEN ObsViol(<<"C07", "C10">>, "FlushBelowLevel0DuringCompaction",
+                           [keys |-> <<Ev.add[1].f, Ev.add[1].level>>, at |-> 0])
+              ELSE <<>>)
+  /\ Step(Ev.ok, "Edit")
   /\ flushed' = FALSE
   /\ UNCHANGED <<nk, seq, hist, mem, imm, immOn, immWal, pins, snaps, comp, disk, nextFile,
                  curWal, nextPin, gcDue, runInfo, keep, lastIter, isOpen, gpins, deferred, ackStore, inflight>>
